@@ -29,12 +29,26 @@
 (*   --cinit=CInit8   --init=Init    --inv=IndInv --length=0   (base)      *)
 (*   --cinit=CInit8   --init=IndInit --inv=IndInv --length=1   (step)      *)
 (*   --cinit=CInit8   --init=IndInit --inv=Safe   --length=0   (IndInv => Safe) *)
-(*   (the same three with --cinit=CInit16)                                 *)
+(*   (the same three with --cinit=CInit16, CInitAny and CInitMsm)          *)
 (*   --cinit=CInitMut --init=Init    --inv=Safe   --length=3   (must FAIL) *)
 (*   --cinit=CInit8   --init=Init    --inv=NoCompletedRun --length=5 (must FAIL: non-vacuity) *)
 (*                                                                         *)
-(* B is fixed per run (256 and 65536: the two table shapes of the CRS) so  *)
-(* that the only non-linear terms are products with the power pw = B^k.    *)
+(* CInit8 / CInit16 fix B (the two table shapes of the CRS); CInitAny lets  *)
+(* B be ANY even number up to 2^21.                                        *)
+(*                                                                         *)
+(* MsmForm = TRUE is the digit rule of the variable-base MSM (C09,         *)
+(* bandersnatch/multiexp.go partitionScalars, window width c, B = 2^c):    *)
+(*                                                                         *)
+(*   digit := carry + window_k(s); carry = 0                               *)
+(*   if digit == 0 { continue }                                            *)
+(*   if digit >= B/2 { digit -= B; carry = 1 }                             *)
+(*   digit > 0: bucket digit-1 is added;  digit < 0: bucket -digit-1 is    *)
+(*   subtracted;  (digit = 0 after the subtraction: nothing)               *)
+(*                                                                         *)
+(* with B/2 buckets per window.  Same invariant, same Safe; "top window    *)
+(* small" is d + 1 < B/2 there.  (How window_k is cut out of the 64-bit    *)
+(* limbs when c does not divide 64 is MSMImpl!ReadBits, explored in the    *)
+(* small world and bound by Trace_MSM.)                                    *)
 (***************************************************************************)
 EXTENDS Integers
 
@@ -42,10 +56,16 @@ CONSTANTS
   \* @type: Int;
   B,
   \* @type: Bool;
-  KeepCarry           \* TRUE: the mutant that forgets `carry = 0` (a set carry is never cleared): must be refuted
-CInit8     == B = 256   /\ KeepCarry = FALSE
-CInit16    == B = 65536 /\ KeepCarry = FALSE
-CInitMut   == B = 256   /\ KeepCarry = TRUE
+  KeepCarry,          \* TRUE: the mutant that forgets `carry = 0` (a set carry is never cleared): must be refuted
+  \* @type: Bool;
+  MsmForm             \* TRUE: the digit rule of bandersnatch/multiexp.go partitionScalars (see below)
+CInit8     == B = 256   /\ KeepCarry = FALSE /\ MsmForm = FALSE
+CInit16    == B = 65536 /\ KeepCarry = FALSE /\ MsmForm = FALSE
+(* EVERY even base up to 2^21, i.e. every window width 1 .. 21 (and every even base that is not a power of two) *)
+CInitAny   == (\E h \in 1 .. 1048576 : B = 2 * h) /\ KeepCarry = FALSE /\ MsmForm = FALSE
+CInitMsm   == (\E h \in 1 .. 1048576 : B = 2 * h) /\ KeepCarry = FALSE /\ MsmForm = TRUE
+CInitMut   == B = 256   /\ KeepCarry = TRUE /\ MsmForm = FALSE
+CInitMsmMut == B = 32   /\ KeepCarry = TRUE /\ MsmForm = TRUE
 
 VARIABLES
   \* @type: Int;
@@ -77,11 +97,11 @@ Window ==
   /\ \E d \in 0 .. (B - 1), q \in Nat :
        /\ rem = q * B + d
        /\ rem' = q
-       /\ topSmall' = (d < Half)
+       /\ topSmall' = (IF MsmForm THEN d + 1 < Half ELSE d < Half)
        /\ LET wv == d + carry IN
           IF wv = 0
-          THEN UNCHANGED <<acc, carry, idxOK>>
-          ELSE IF wv > Half
+          THEN (IF MsmForm THEN carry' = 0 /\ UNCHANGED <<acc, idxOK>> ELSE UNCHANGED <<acc, carry, idxOK>>)
+          ELSE IF (IF MsmForm THEN wv >= Half ELSE wv > Half)
                THEN /\ carry' = 1
                     /\ IF B - wv # 0
                        THEN acc' = acc - (B - wv) * pw /\ idxOK' = (idxOK /\ 0 <= B - wv - 1 /\ B - wv - 1 <= Half - 1)
